@@ -6,6 +6,7 @@
 #include "QXmppPromise.h"
 #include "QXmppTask.h"
 
+#include <functional>
 #include <QObject>
 
 #include <memory>
@@ -48,6 +49,8 @@ struct Env {
     char executing = 0; // 'p' finish() is running on ps[0], 't' then() on ts[0]
     std::shared_ptr<int> sentinel = std::make_shared<int>(0);
     int refinished = 0;  // the body's guarded second completion went through (never, if finish() marks first)
+    int runs2 = 0;       // runs of continuations attached when no value was left (late / re-entrant then())
+    std::function<void()> reThen;  // attaches such a continuation to ts[0] (set by runBehaviour)
 
     void refinish()
     {
@@ -69,6 +72,13 @@ struct Env {
             if (!ps.empty() && refinished == 0 && !ps[0].task().isFinished()) {
                 ++refinished;
                 refinish();
+            }
+        } else if (body == "reThen") {
+            // re-entry: attach a second continuation to a copy of the own task while this one runs
+            // (only from finish(): inside a continuation that then() runs directly the value is still
+            // being handed over, which is outside what the model describes)
+            if (executing == 'p' && !ts.empty() && ctxObj && reThen) {
+                reThen();
             }
         } else if (body == "dropOthers") {
             if (executing == 'p') {
@@ -114,6 +124,41 @@ struct ContVoid {
         env->runBody();
     }
 };
+
+// continuation attached when the value is already gone: must never run for a non-void task
+template<typename T>
+struct LateCont {
+    Env<T> *env;
+    std::shared_ptr<int> cap;
+    std::shared_ptr<QXmppTask<T>> self;
+    void operator()(T &&)
+    {
+        ++*cap;
+        env->runs2++;
+    }
+};
+struct LateContVoid {
+    Env<void> *env;
+    std::shared_ptr<int> cap;
+    std::shared_ptr<QXmppTask<void>> self;
+    void operator()()
+    {
+        ++*cap;
+        env->runs2++;
+    }
+};
+
+template<typename T>
+void attachLate(Env<T> &e, bool sc)
+{
+    auto self = sc ? std::make_shared<QXmppTask<T>>(e.ts[0]) : std::shared_ptr<QXmppTask<T>>();
+    auto copy = e.ts[0];  // then() on a copy of the task, as an application holding a copy would
+    if constexpr (std::is_void_v<T>) {
+        copy.then(e.ctxObj, LateContVoid { &e, e.sentinel, self });
+    } else {
+        copy.then(e.ctxObj, LateCont<T> { &e, e.sentinel, self });
+    }
+}
 
 template<typename T>
 int liveOf()
@@ -161,6 +206,7 @@ void runBehaviour(Ctx &ctx, const QString &caseId, const QString &kind, const QJ
         Env<T> e;
         e.ctxObj = new QObject;
         e.ps.emplace_back();
+        e.reThen = [&e] { attachLate<T>(e, false); };
         for (const auto &sv : steps) {
             auto s = sv.toObject();
             auto a = s["a"].toString();
@@ -173,7 +219,7 @@ void runBehaviour(Ctx &ctx, const QString &caseId, const QString &kind, const QJ
                 possible = !e.ps.empty();
             } else if (a == "DropTask") {
                 possible = !e.ts.empty();
-            } else if (a == "Then") {
+            } else if (a == "Then" || a == "ThenLate") {
                 possible = !e.ts.empty() && e.ctxObj;
             } else if (a == "MakeTask") {
                 possible = !e.ps.empty() || !e.ts.empty();
@@ -221,6 +267,18 @@ void runBehaviour(Ctx &ctx, const QString &caseId, const QString &kind, const QJ
                     e.ts[0].then(e.ctxObj, Cont<T> { &e, e.sentinel, self });
                 }
                 e.executing = 0;
+            } else if (a == "ThenLate") {
+                bool sc = s["sc"].toBool();
+                ev["sc"] = sc;
+                // only when the implementation is where the model is: finished and nothing stored
+                bool gone = e.ts[0].isFinished();
+                if constexpr (!std::is_void_v<T>) {
+                    gone = gone && !e.ts[0].hasResult();
+                }
+                if (!gone) {
+                    break;
+                }
+                attachLate<T>(e, sc);
             } else if (a == "Finish") {
                 e.body = s["b"].toString();
                 int v = s["v"].toInt();
@@ -239,6 +297,7 @@ void runBehaviour(Ctx &ctx, const QString &caseId, const QString &kind, const QJ
                 exit(2);
             }
             ev["o"] = observe(e);
+            ev["r2"] = e.runs2;
             ctx.emit_(ev);
         }
         // end of behaviour: drop everything, then observe release
@@ -246,7 +305,8 @@ void runBehaviour(Ctx &ctx, const QString &caseId, const QString &kind, const QJ
         e.ts.clear();
         delete e.ctxObj;
         e.ctxObj = nullptr;
-        QJsonObject ev { { "e", "DropAll" }, { "o", observe(e) } };
+        e.reThen = nullptr;
+        QJsonObject ev { { "e", "DropAll" }, { "o", observe(e) }, { "r2", e.runs2 } };
         ctx.emit_(ev);
     }
 }
